@@ -125,6 +125,9 @@ func ParseArmor(text []byte) (*Armor, error) {
 			sawCRC = true
 			continue
 		}
+		if len(s) == 0 && len(b64) == 0 {
+			continue // blank line before any data (an empty body written as "\n=crc")
+		}
 		if len(s) == 0 || len(s) > 76 {
 			return nil, fmt.Errorf("bad body line length %d", len(s))
 		}
